@@ -143,7 +143,21 @@ pub fn run_lines(args: &Args, mut out: Out) {
             });
             let res = catch(|| {
                 clear_thread_local_log_tags();
-                log(std::time::SystemTime::now(), level, tags.clone()).ok();
+                // the event's time: mostly now, but also the first second of the epoch (numbers must not get leading zeros),
+                // whole seconds, and far dates (epoch_ns is documented up to 2554)
+                let epoch = std::time::SystemTime::UNIX_EPOCH;
+                let dur = std::time::Duration::new;
+                let when = match sid % 9 {
+                    0 => epoch,
+                    1 => epoch + dur(0, 1),
+                    2 => epoch + dur(0, 999_999_999),
+                    3 => epoch + dur(0, 1_000_000),
+                    4 => epoch + dur(1, 0),
+                    5 => epoch + dur(1_700_000_000, 0),
+                    6 => epoch + dur(16_725_225_600, 123),
+                    _ => std::time::SystemTime::now(),
+                };
+                log(when, level, tags.clone()).ok();
                 let ev = receiver.recv().unwrap();
                 let mut line = Vec::new();
                 ev.write_jsonl(&mut line).unwrap();
